@@ -16,10 +16,27 @@
   (forall ((r Int)) (= (select h2 r) (ite (rmem r ts) (mergeF (select h r) s) (select h r)))))
 (define-fun-rec anyRejected ((h (Array Int Val)) (ts RLst) (s Val)) Bool
   (ite ((_ is RNil) ts) false (or (mergeErr (select h (rhd ts)) s) (anyRejected h (rtl ts) s))))
-(declare-fun parentsOf ((Array Int RLst) (Array Int String) (Array Int RLst) Int Int) RLst)
 ; wfDocs ds top : representation invariant of the stored document list: distinct, non-nil objects that exist (below top)
 (define-fun-rec wfDocs ((ds RLst) (top Int)) Bool
   (and (rdistinct ds) (forall ((r Int)) (=> (rmem r ds) (and (not (= r 0)) (< r top))))))
 ; freshDocs ds lo hi : distinct, non-nil objects allocated in [lo, hi)
 (define-fun-rec freshDocs ((ds RLst) (lo Int) (hi Int)) Bool
   (and (rdistinct ds) (forall ((r Int)) (=> (rmem r ds) (and (not (= r 0)) (>= r lo) (< r hi))))))
+
+; ---- which stored documents descend from a patch's parent layer ("transitive parent identity by document ID")
+;   ancIDs hp hid d : the set of document IDs reachable from d through Parents (one or more steps)
+;   ancVia hp hid ds id : id is the ID of a document in ds, or of one of its ancestors
+; ancIDs is the least set satisfying its defining equation (AX ancIDs-def); parentsOf is then *defined*: the stored
+; documents, in stream order, whose ID is in that set.
+(declare-fun ancIDs ((Array Int RLst) (Array Int String) Int) (Array String Bool))
+(define-fun-rec ancVia ((hp (Array Int RLst)) (hid (Array Int String)) (ds RLst) (id String)) Bool
+  (ite ((_ is RNil) ds) false
+       (or (= (select hid (rhd ds)) id) (select (ancIDs hp hid (rhd ds)) id) (ancVia hp hid (rtl ds) id))))
+(define-fun-rec filterAnc ((hid (Array Int String)) (anc (Array String Bool)) (ds RLst)) RLst
+  (ite ((_ is RNil) ds) RNil
+       (ite (select anc (select hid (rhd ds))) (RCons (rhd ds) (filterAnc hid anc (rtl ds))) (filterAnc hid anc (rtl ds)))))
+(define-fun parentsOf ((hdocs (Array Int RLst)) (hid (Array Int String)) (hp (Array Int RLst)) (p Int) (patch Int)) RLst
+  (filterAnc hid (ancIDs hp hid patch) (select hdocs p)))
+; AX ancIDs-def
+(assert (forall ((hp (Array Int RLst)) (hid (Array Int String)) (d Int) (id String))
+  (! (= (select (ancIDs hp hid d) id) (ancVia hp hid (select hp d) id)) :pattern ((select (ancIDs hp hid d) id)))))
